@@ -73,6 +73,17 @@ def generate(tier, rng):
             pn, pd = rng.choice([(0, 1), (0, 1), (1, 4), (1, 2), (3, 4), (1, 1)])
             th = rng.choice([0, 0, 1, 2, 3])
             cases.append({"op": "overlap", "a": [s, e, cs, ce], "pn": pn, "pd": pd, "th": th, "incl": rng.random() < 0.5, "scale": sc})
+            # decimal times with the default thresholds: whether two intervals overlap is a matter of order alone
+            # (a shared boundary is the same binary64 value on both sides), so it is decided exactly there too
+            s, e = sorted(rng.sample(range(0, 60), 2))
+            if rng.random() < 0.6:
+                cs, ce = (e, e + rng.randint(1, 30)) if rng.random() < 0.5 else (max(0, s - rng.randint(1, 30)), s)
+                if cs == ce:
+                    ce += 1
+            else:
+                cs, ce = sorted(rng.sample(range(0, 60), 2))
+            cases.append({"op": "overlap", "a": [s, e, cs, ce], "pn": 0, "pd": 1, "th": 0, "incl": rng.random() < 0.5,
+                          "scale": ["decimal", rng.choice([1, 2])]})
         elif u < 0.92:
             k = rng.randint(0, 5)
             cuts = sorted(rng.sample(range(0, 30), 2 * k))
@@ -94,6 +105,19 @@ def generate(tier, rng):
             if rng.random() < 0.7:
                 corrupt = rng.choice(["min_up", "max_down", "swap", "reverse_entry", "none"])
             cases.append({"op": "validate", "tier": t, "corrupt": corrupt, "scale": sc})
+    # Textgrid.validate: True exactly when every tier has the textgrid's span and is itself valid (names unique)
+    for _ in range(300 if tier == "quick" else 8000):
+        tiers = []
+        for k in range(rng.randint(1, 4)):
+            t = gen.random_itier(rng, name="i%d" % k, tmax=30, maxn=4) if rng.random() < 0.6 else gen.random_ptier(rng, name="p%d" % k, tmax=30, maxn=4)
+            if rng.random() < 0.3:
+                t["entries"] = []
+            t["min"], t["max"] = 0, 30
+            tiers.append(t)
+        corrupt = None
+        if rng.random() < 0.65:
+            corrupt = [rng.randrange(len(tiers)), rng.choice(["min_up", "max_down", "max_up", "swap", "tgmax_up", "tgmin_down"])]
+        cases.append({"op": "tgvalidate", "tiers": tiers, "corrupt": corrupt, "scale": list(rng.choice(gen.SCALES_DYADIC))})
     for _ in range(300 if tier == "quick" else 8000):
         t = gen.random_itier(rng, tmax=30, maxn=5) if rng.random() < 0.6 else gen.random_ptier(rng, tmax=30, maxn=5)
         if rng.random() < 0.15:
@@ -149,6 +173,36 @@ def run(case):
                 t._entries[0] = type(e)(e[1], e[0], e[2])
             snap = core.snap_tier(t, sc)
             return {"state": snap, "valid": bool(t.validate("silence"))}
+        if op == "tgvalidate":
+            from praatio.data_classes.textgrid import Textgrid
+            tg = Textgrid(sc.f(0), sc.f(30))
+            for spec in case["tiers"]:
+                tg.addTier(core.mk_tier(spec, sc), reportingMode="silence")
+            if case["corrupt"]:
+                k, c = case["corrupt"]
+                t = tg.tiers[k]
+                if c == "min_up":
+                    t.minTimestamp = t.minTimestamp + sc.f(3)
+                elif c == "max_down":
+                    t.maxTimestamp = t.maxTimestamp - sc.f(5)
+                elif c == "max_up":
+                    t.maxTimestamp = t.maxTimestamp + sc.f(2)
+                elif c == "swap" and len(t._entries) >= 2:
+                    t._entries[0], t._entries[1] = t._entries[1], t._entries[0]
+                elif c == "tgmax_up":
+                    tg.maxTimestamp = tg.maxTimestamp + sc.f(1)
+                elif c == "tgmin_down":
+                    tg.minTimestamp = tg.minTimestamp - sc.f(1)
+            with core.captured_stdout():
+                got = bool(tg.validate("silence"))
+                exp = all(t.minTimestamp == tg.minTimestamp and t.maxTimestamp == tg.maxTimestamp for t in tg.tiers) \
+                    and all(bool(t.validate("silence")) for t in tg.tiers) and len(set(tg.tierNames)) == len(tg.tierNames)
+                raised = None
+                try:
+                    tg.validate("error")
+                except Exception as e:  # noqa
+                    raised = type(e).__name__
+            return {"got": got, "exp": exp, "raised": raised}
         if op == "equality":
             return _equality(case, sc)
         raise ValueError(op)
@@ -231,7 +285,7 @@ def _nats(l):
 
 def emit(case, r):
     op = case["op"]
-    if op in ("findre", "equality"):
+    if op in ("findre", "equality", "tgvalidate"):
         return None
     if op == "invert":
         f = lambda x: "None" if x is None else "(Some %s)" % core.cz(x)  # noqa
@@ -275,6 +329,16 @@ def py_checks(case, r):
         if "ok" not in r:
             return ["equality harness failed: %r" % (r,)]
         return r["ok"]["fails"]
+    if op == "tgvalidate":
+        if "ok" not in r:
+            return ["Textgrid.validate('silence') raised %s" % r.get("exc", r)]
+        v = r["ok"]
+        out = []
+        if v["got"] != v["exp"]:
+            out.append("Textgrid.validate() returned %s; every tier has the textgrid's span and is valid: %s" % (v["got"], v["exp"]))
+        if (v["raised"] is None) != v["exp"]:
+            out.append("Textgrid.validate('error') raised %s on a textgrid whose validity is %s" % (v["raised"], v["exp"]))
+        return out
     if op in ("find", "valuesin", "overlap", "validate") and "ok" not in r:
         return ["%s raised %s" % (op, r.get("exc", r))]
     return []
@@ -287,6 +351,8 @@ def classify(case, r):
         extra = "/fuzzy" if case["fuzzy"] else "/exact"
     if case["op"] == "validate":
         extra = "/%s/%s" % (case["corrupt"], r.get("ok", {}).get("valid"))
+    if case["op"] == "tgvalidate":
+        extra = "/%s/%s" % (case["corrupt"][1] if case["corrupt"] else None, r.get("ok", {}).get("got"))
     return "%s%s/%s" % (case["op"], extra, out)
 
 
